@@ -190,11 +190,29 @@ def v1_corruptions(rng, doc, keys):
     msg = bytes.fromhex(d["elements"][1]["message"])
     d["elements"][1]["signature"] = keys["root"].sign(msg, low_s=False).hex()
     out.append(("high-s-device", d, root_pub))
+    # attestation messages of other lengths: the certified key is everything after the first byte
+    att_k, dev_k = keys["attestation"], keys["device"]
+    for label, att_msg in (("attmsg-two-byte-prefix", b"\xff\xff" + att_k.pub()),
+                           ("attmsg-compressed-key", b"\xff" + att_k.vk.to_string("compressed")),
+                           ("attmsg-trailing-byte", b"\xff" + att_k.pub() + b"\x00")):
+        d = copy.deepcopy(doc)
+        d["elements"][0]["message"] = att_msg.hex()
+        d["elements"][0]["signature"] = dev_k.sign(att_msg).hex()
+        d["targets"] = ["attestation", "ui", "signer"]
+        out.append((label, d, root_pub))
     # subsets / orders of targets, shared ancestors
     for tg in (["ui"], ["signer"], ["attestation"], ["device"], ["signer", "ui", "device"], []):
         d = copy.deepcopy(doc)
         d["targets"] = tg
         out.append(("targets-%s" % "+".join(tg), d, root_pub))
+    # every corruption again with several targets in some order (one call validates them all)
+    names = [e["name"] for e in doc["elements"]]
+    for label, d0, rp in list(out):
+        if label.startswith("targets-"):
+            continue
+        d = copy.deepcopy(d0)
+        d["targets"] = rng.sample(names, rng.randint(2, len(names)))
+        out.append((label + "+targets-" + "+".join(d["targets"]), d, rp))
     return out
 
 
@@ -240,6 +258,14 @@ def impl_load_validate(doc, root_obj_factory, tmpdir, with_resave=True, prior_ro
             finally:
                 cert._targets = saved
         obs["results"] = results
+        # ... and all targets in one call (what the commands do): must agree with the above
+        try:
+            allr = cert.validate_and_get_values(root)
+            obs["results_all"] = [allr[tg] for tg in cert._targets]
+        except BaseException as e:
+            if type(e).__name__ == "Hang":
+                raise
+            obs["results_all"] = ("raises", type(e).__name__)
     if with_resave:
         try:
             obs["resave"] = cert.to_dict()
